@@ -40,6 +40,9 @@ def scenarios(tier, mode="th"):
     add("s1A||d1 (same pid)", "p1A", {"T1": [S1A], "T2": [D1]})
     add("t1A||t2A (same cid)", "Aunref", {"T1": [T1A], "T2": [T2A]})
     add("t1A||t1A (same pid)", "Aunref", {"T1": [T1A], "T2": [T1A]})
+    add("t1A||d1 (tag and delete of a bound pid)", "p1A", {"T1": [T1A], "T2": [D1]})
+    add("t1A||d1 (tag and delete of an unbound pid)", "Aunref", {"T1": [T1A], "T2": [D1]})
+    add("t2A||d1 (tag and delete on one cid)", "p1A", {"T1": [T2A], "T2": [D1]})
     add("d1||xA (same cid)", "p1A", {"T1": [D1], "T2": [XA]})
     add("M1||M2 (same document)", "meta", {"T1": [M1], "T2": [M2]})
     add("M1||Da (same document)", "meta", {"T1": [M1], "T2": [DA]})
